@@ -114,6 +114,7 @@ Judge(ev) ==
             LET a == Q(ev.amt)  sf == Q(ev.sf) IN
             IF ev.obs.st # "ok" THEN "bad:rejected"
             ELSE IF ~ev.obs.ongrid THEN "bad:off-grid"
+            ELSE IF ~ev.obs.text_roundtrip THEN "bad:text-form"
             ELSE J(IsRounded(BMul(a.n, sf.d), BMul(a.d, sf.n), Lim(ev.obs.R), ev.mode, a.s = -1)
                    /\ (((a.s = -1) = ev.obs.neg) \/ Lim(ev.obs.R) = <<>>))
       [] ev.op = "price_rate" ->
